@@ -4611,6 +4611,9 @@ class UDFFileIdentifierDescriptor:
                 self.fi = bytename.encode('utf-16_be')
                 self.encoding = 'utf-16_be'
             self.len_fi = len(self.fi) + 1
+            if self.len_fi > 255:
+                # The identifier length is stored in a single byte.
+                raise pycdlibexception.PyCdlibInvalidInput('UDF names can be at most 254 bytes once encoded')
 
         self.parent = parent
 
